@@ -63,7 +63,7 @@ def build_harness(profile="dev"):
     lock_dst = os.path.join(HARNESS, "Cargo.lock")
     if os.path.exists(lock_src):
         shutil.copy(lock_src, lock_dst)
-    cmd = "cargo build --offline" + (" --release" if profile == "release" else "")
+    cmd = "cargo build --offline" + (" --release" if profile == "release" else (" --profile dbg" if profile == "dbg" else ""))
     try:
         rc, out, _ = run(cmd, HARNESS, 1800)
     except subprocess.TimeoutExpired:
@@ -72,7 +72,7 @@ def build_harness(profile="dev"):
 
 
 def harness_exe(profile="dev"):
-    return os.path.join(HARNESS, "target", "release" if profile == "release" else "debug", "blharness")
+    return os.path.join(HARNESS, "target", {"release": "release", "dbg": "dbg"}.get(profile, "debug"), "blharness")
 
 
 def driver_exe():
